@@ -254,8 +254,9 @@ pub fn mutate(rng: &mut Rng, enc: &[u8]) -> Vec<u8> {
     if v.is_empty() {
         return vec![rng.next() as u8];
     }
-    match rng.below(13) {
+    match rng.below(14) {
         12 => shift_string_boundary(rng, &mut v),
+        13 => pad_inner_varint(rng, &mut v),
         0 => {
             let i = rng.below(v.len() as u64) as usize;
             v[i] ^= 1 << rng.below(8);
@@ -337,6 +338,27 @@ pub fn mutate(rng: &mut Rng, enc: &[u8]) -> Vec<u8> {
         }
     }
     v
+}
+
+/// Respell one byte b < 0x80 of the body as the NON-MINIMAL variable byte integer `b|0x80, 0x00` (or with
+/// two/three padding bytes) and add the extra bytes to a one-byte remaining length.  When the byte is a
+/// property length or a Subscription Identifier this is exactly a padded integer, which the codec
+/// tolerates; every length bookkeeping of the decoder must then count the bytes actually read.
+fn pad_inner_varint(rng: &mut Rng, v: &mut Vec<u8>) {
+    if v.len() < 4 || v[1] >= 0x7c {
+        return;
+    }
+    // prefer the first bytes of the body (property lengths live there) but try anywhere
+    let i = if rng.chance(2, 3) { 2 + rng.below((v.len() - 2).min(8) as u64) as usize } else { 2 + rng.below((v.len() - 2) as u64) as usize };
+    if v[i] >= 0x80 {
+        return;
+    }
+    let extra = 1 + rng.below(3) as usize;
+    v[i] |= 0x80;
+    for k in 0..extra {
+        v.insert(i + 1 + k, if k + 1 == extra { 0 } else { 0x80 });
+    }
+    v[1] += extra as u8;
 }
 
 /// Two adjacent length-prefixed fields `[L][s1][L2][s2]`: move the boundary by one byte (the total
@@ -672,6 +694,27 @@ fn sweep_counts() -> Vec<usize> {
 /// Valid v3 packets on a GRID instead of at random: one text field swept through the lengths where a
 /// derived length crosses a boundary, crossed with payload sizes and QoS; list fields swept through
 /// element counts around powers of two (also with every element equal).
+/// Texts in which a multi-byte character ends at, straddles or starts at a power-of-two offset (a decoder
+/// that validates or copies text in chunks must carry a split character over): for each boundary B and each
+/// character width w, the character's last byte falls on offset B-1+o for o in 0..w.
+pub fn aligned_texts(thorough: bool) -> Vec<String> {
+    let mut out = Vec::new();
+    let bounds: &[usize] = if thorough { &[64, 128, 256, 512, 1024, 2048, 4096, 8192, 16384, 32768] } else { &[1024, 4096, 8192, 16384, 32768] };
+    for b in bounds {
+        for ch in ["é", "你", "😀"] {
+            let w = ch.len();
+            for o in 0..w {
+                let end = b + o; // the character occupies [end - w, end)
+                let mut s = "a".repeat(end - w);
+                s.push_str(ch);
+                s.push_str("tail😀");
+                out.push(s);
+            }
+        }
+    }
+    out
+}
+
 pub fn sweep_v3(thorough: bool) -> Vec<v3::Packet> {
     use v3::*;
     let mut out = Vec::new();
@@ -697,6 +740,10 @@ pub fn sweep_v3(thorough: bool) -> Vec<v3::Packet> {
             }));
             out.push(Packet::Subscribe(Subscribe { pid: Pid::try_from(3).unwrap(), topics: vec![(TopicFilter::try_from("f".repeat(l)).unwrap(), QoS::Level0)] }));
         }
+    }
+    for t in aligned_texts(thorough) {
+        out.push(Packet::Publish(Publish { dup: false, retain: true, qos_pid: QosPid::Level0, topic_name: TopicName::try_from(t.clone()).unwrap(), payload: Bytes::from(t.clone().into_bytes()) }));
+        out.push(Packet::Connect(Connect { protocol: Protocol::V310, clean_session: false, keep_alive: 1, client_id: Arc::new(t.clone()), last_will: None, username: Some(Arc::new(t)), password: None }));
     }
     for n in sweep_counts() {
         out.push(Packet::Suback(Suback { pid: Pid::try_from(5).unwrap(), topics: (0..n).map(|i| [SubscribeReturnCode::MaxLevel0, SubscribeReturnCode::MaxLevel2, SubscribeReturnCode::Failure][i % 3]).collect() }));
@@ -727,6 +774,40 @@ pub fn sweep_v5(thorough: bool) -> Vec<v5::Packet> {
             out.push(Packet::Disconnect(Disconnect { reason_code: DisconnectReasonCode::ServerBusy, properties: DisconnectProperties { reason_string: Some(Arc::new("r".repeat(l))), ..Default::default() } }));
             out.push(Packet::Puback(Puback { pid: Pid::try_from(9).unwrap(), reason_code: PubackReasonCode::Success, properties: PubackProperties { reason_string: Some(Arc::new("r".repeat(l))), user_properties: vec![] } }));
             out.push(Packet::Subscribe(Subscribe { pid: Pid::try_from(3).unwrap(), properties: Default::default(), topics: vec![(TopicFilter::try_from("f".repeat(l)).unwrap(), SubscriptionOptions::new(QoS::Level1))] }));
+        }
+    }
+    for t in aligned_texts(thorough) {
+        // a payload flagged as UTF-8 text, a topic, a reason string and a user property value
+        let properties = PublishProperties { payload_is_utf8: Some(true), ..Default::default() };
+        out.push(Packet::Publish(Publish { dup: false, retain: false, qos_pid: QosPid::Level0, topic_name: name(1), payload: Bytes::from(t.clone().into_bytes()), properties }));
+        out.push(Packet::Publish(Publish { dup: false, retain: false, qos_pid: QosPid::Level0, topic_name: TopicName::try_from(t.clone()).unwrap(), payload: Bytes::new(), properties: Default::default() }));
+        out.push(Packet::Disconnect(Disconnect {
+            reason_code: DisconnectReasonCode::NormalDisconnect,
+            properties: DisconnectProperties { reason_string: Some(Arc::new(t.clone())), user_properties: vec![UserProperty { name: Arc::new("k".into()), value: Arc::new(t) }], ..Default::default() },
+        }));
+    }
+    // ALIASING: the same Arc<String> allocation used for several fields / elements (what an application does
+    // when it clones one name into many user properties); equal by value to the unaliased packet
+    {
+        let k = Arc::new("key".to_string());
+        let v1 = Arc::new("v".to_string());
+        let v2 = Arc::new("a much longer value than the first".to_string());
+        let shared_names = vec![UserProperty { name: k.clone(), value: v1.clone() }, UserProperty { name: k.clone(), value: v2.clone() }, UserProperty { name: k.clone(), value: k.clone() }];
+        let shared_values = vec![UserProperty { name: Arc::new("n1".into()), value: v2.clone() }, UserProperty { name: Arc::new("another name".into()), value: v2.clone() }, UserProperty { name: v2.clone(), value: v2.clone() }];
+        for ups in [shared_names, shared_values] {
+            out.push(Packet::Puback(Puback { pid: Pid::try_from(2).unwrap(), reason_code: PubackReasonCode::Success, properties: PubackProperties { reason_string: Some(k.clone()), user_properties: ups.clone() } }));
+            out.push(Packet::Publish(Publish { dup: false, retain: false, qos_pid: QosPid::Level0, topic_name: name(2), payload: Bytes::new(), properties: PublishProperties { user_properties: ups.clone(), content_type: Some(k.clone()), ..Default::default() } }));
+            out.push(Packet::Connect(Connect {
+                protocol: Protocol::V500,
+                clean_start: true,
+                keep_alive: 0,
+                properties: ConnectProperties { user_properties: ups.clone(), ..Default::default() },
+                client_id: k.clone(),
+                last_will: None,
+                username: Some(k.clone()),
+                password: None,
+            }));
+            out.push(Packet::Unsubscribe(Unsubscribe { pid: Pid::try_from(4).unwrap(), properties: UnsubscribeProperties { user_properties: ups }, topics: vec![TopicFilter::try_from("a".to_string()).unwrap()] }));
         }
     }
     for n in sweep_counts() {
